@@ -19,6 +19,7 @@
 //    OR a delegation record of that role with now < expireTime — the notion of "holds" of the contract's own getAuthToken)
 //  * an operation whose signature check did not succeed leaves the storage unchanged (initContractAdmin has no signature)
 //  * after a successful withdraw the delegate has no delegation record of that role
+//  * after a successful delegate the delegate has exactly one record of the role, naming this delegator, expiry and level
 //  * a successful delegate was signed, issued by a direct holder of exactly that role to a non-holder, with level 1 and expiry < future
 package main
 
@@ -526,6 +527,17 @@ func exec(line string) hx.Result {
 				fail("delegate-accepted-outside-guard:level", op+" returned TRUE")
 			case uint64(now)+per >= FUTURE:
 				fail("delegate-accepted-outside-guard:expiry-not-before-future", op+" returned TRUE")
+			}
+			// the record now stored for `to` names this delegator, this expiry and this level — exactly one record of the role
+			n, okRec := 0, false
+			for _, d := range after.status[[2]int{c, to}] {
+				if d.role == ro {
+					n++
+					okRec = d.root == from && uint64(d.expire) == uint64(now)+per && strconv.Itoa(int(d.level)) == p[7]
+				}
+			}
+			if n != 1 || !okRec {
+				fail("delegate-record-mismatch", fmt.Sprintf("%s returned TRUE but the delegate's record of the role is not (root=%d, expire=%d, level=%s): %s", op, from, uint64(now)+per, p[7], after))
 			}
 		}
 		if p[1] == "wd" && r == "T" { // a successful withdraw revokes: no record of that role is left for the delegate
